@@ -150,6 +150,9 @@ theorem andThen_ok (v : V) (s : St) (k : V → St → Res × St) : andThen (.ok 
 
 theorem andThen_err (e : Err) (s : St) (k : V → St → Res × St) : andThen (.err e, s) k = (.err e, s) := rfl
 
+theorem assertHint_off (h : Option Hint) (v : V) (s : St) : assertHint false h v s = (.ok .null, s) := by
+  cases h <;> simp [assertHint]
+
 theorem assertHint_raises_iff (h : Hint) (v : V) (s : St) :
     (assertHint true (some h) v s).1 = .err (.type h (typeName v)) ↔ check h.name h.opt v = false := by
   rw [assertHint_some]
@@ -186,9 +189,11 @@ theorem assert_return (c : Bool) (F : Funs) (n : Nat) (h : Hint) (e : Expr) (s s
       else (.ret v, s1) := by
   simp only [eval, he, andThen_ok, ho, assertHint_eq]
 
-theorem assert_arg_and_result (c : Bool) (F : Funs) (n i : Nat) (f a : Expr) (x : Var) (ha : Hint) (out : Option Hint)
+/-- position: function argument — named (`x = some _`) or wildcard (`x = none`: `_: T`, `_x: T`) —
+and what follows (the body, then the implicit return value against `-> R`) -/
+theorem assert_arg_and_result (c : Bool) (F : Funs) (n i : Nat) (f a : Expr) (x : Option Var) (ha : Hint) (out : Option Hint)
     (body : Expr) (s s1 s2 : St) (v : V)
-    (hF : F[i]? = some ⟨[(x, some ha)], out, .plain body⟩)
+    (hF : F[i]? = some ⟨[.b x (some ha)], out, .plain body⟩)
     (hf : eval c F n f s = (.ok (.fn i), s1))
     (hargs : evalArgs c F n [a] s1 = (.ok (.tuple [v]), s2)) :
     eval c F (n + 1) (.call f [a]) s =
@@ -196,12 +201,21 @@ theorem assert_arg_and_result (c : Bool) (F : Funs) (n i : Nat) (f a : Expr) (x 
         (.err (.type ha (typeName v)), { s2 with fails := s2.fails + 1 })
       else
         restore s2 <|
-          bindR (eval c F n body { s2 with env := [(x, v)], out := out }) (finishCall c out) := by
-  simp only [eval, hf, andThen_ok, hargs, hF, paramBinders, List.map, bindMany, bindOne, List.length, List.headD,
-    St.setOpt, St.set, assertHint_eq]
-  cases c <;> cases hc : check ha.name ha.opt v <;> simp [restore, andThen_ok, andThen_err]
+          bindR (eval c F n body (St.setOpt { s2 with env := [], out := out } x v)) (finishCall c out) := by
+  simp only [eval, hf, andThen_ok, hargs, hF, bindArgs, bindArg, bindOne, List.length, List.headD, assertHint_eq]
+  cases c <;> cases hc : check ha.name ha.opt v <;> cases x <;>
+    simp [restore, andThen_ok, andThen_err, St.setOpt, St.set]
 
-theorem assert_yield (c : Bool) (F : Funs) (n i pc : Nat) (params : List (Var × Option Hint)) (h : Hint)
+/-- position: an argument inside a nested `(p, q)` argument is asserted like a top-level one -/
+theorem assert_nested_arg (c : Bool) (k : Nat) (x : Option Var) (h : Hint) (v : V) (s : St) :
+    bindArg c (k + 3) (.tup [.b x (some h)]) (.tuple [v]) s =
+      if c && !(check h.name h.opt v) then
+        (.err (.type h (typeName v)), { (s.setOpt x v) with fails := (s.setOpt x v).fails + 1 })
+      else (.ok .null, s.setOpt x v) := by
+  simp only [bindArg, elems, List.length, if_true, bindArgs, List.headD, bindOne, assertHint_eq]
+
+/-- position `yield e` in a generator with output hint `T` (statement `pc` of generator `i`) -/
+theorem assert_yield (c : Bool) (F : Funs) (n i pc : Nat) (params : List P) (h : Hint)
     (ss : List GStmt) (e : Expr) (s s1 : St) (v : V)
     (hF : F[i]? = some ⟨params, some h, .gen ss⟩) (hpc : ss[pc]? = some (.yld e))
     (he : eval c F n e s = (.ok v, s1)) :
@@ -209,6 +223,36 @@ theorem assert_yield (c : Bool) (F : Funs) (n i pc : Nat) (params : List (Var ×
       if c && !(check h.name h.opt v) then (.err (.type h (typeName v)), { s1 with fails := s1.fails + 1 })
       else (.ok (.tuple [v, .gen i s1.env true (pc + 1)]), s1) := by
   simp only [genNext, hF, hpc, if_true, andThen_ok, he, assertHint_eq]
+
+/-- position: a target of a multi-assignment (`let a: T, … = …`, either right-hand-side form) and of
+a `for` with several arguments: bound, then asserted, then the remaining targets get the remaining
+values -/
+theorem assert_multi_target (c : Bool) (x : Option Var) (h : Hint) (bs : List Binder) (v : V) (vs : List V) (s : St) :
+    bindMany c ((x, some h) :: bs) (v :: vs) s =
+      if c && !(check h.name h.opt v) then
+        (.err (.type h (typeName v)), { (s.setOpt x v) with fails := (s.setOpt x v).fails + 1 })
+      else bindMany c bs vs (s.setOpt x v) := by
+  simp only [bindMany, List.headD, bindOne, assertHint_eq, List.tail]
+
+/-- **A wildcard target still consumes its value**, hinted or not, in both modes: the targets after
+`_` / `_: T` / `_x: T` receive the values after the one the wildcard stands for. (With checks
+disabled `_: T` is just `_`.) -/
+theorem wildcard_still_consumes (h : Option Hint) (bs : List Binder) (v : V) (vs : List V) (s : St) :
+    bindMany false ((none, h) :: bs) (v :: vs) s = bindMany false bs vs s ∧
+    (∀ c, bindMany c ((none, none) :: bs) (v :: vs) s = bindMany c bs vs s) := by
+  constructor
+  · simp only [bindMany, List.headD, bindOne, assertHint_off, andThen_ok, St.setOpt, List.tail]
+  · intro c
+    simp only [bindMany, List.headD, bindOne, assertHint, andThen_ok, St.setOpt, List.tail]
+
+/-- `let … = iterable` (list, tuple, range, string, iterator): the targets take the elements in
+order, the expression's value is the iterable -/
+theorem multi_let_unpacks_in_order (c : Bool) (F : Funs) (n : Nat) (bs : List Binder) (e : Expr) (s s1 : St)
+    (v : V) (xs : List V) (he : eval c F n e s = (.ok v, s1)) (hv : items v = some xs)
+    (hg : ∀ i g st pc, v ≠ .gen i g st pc) :
+    eval c F (n + 1) (.letUnpack bs e) s = andThen (bindMany c bs xs s1) fun _ s2 => (.ok v, s2) := by
+  simp only [eval, he, andThen_ok]
+  cases v <;> simp_all
 
 theorem assert_positions (h : Hint) (v : V) (s : St) :
     ((assertHint true (some h) v s).1 = .err (.type h (typeName v)) ↔ check h.name h.opt v = false) ∧
@@ -222,31 +266,60 @@ theorem assert_positions (h : Hint) (v : V) (s : St) :
 
 /-! ## `match` arms and typed `catch`: a mismatch selects the next alternative -/
 
-/-- **match_hint_falls_through.** A typed arm `x: T` whose check fails does not raise: selection
-continues with the remaining arms (the value has already been copied into `x`). -/
-theorem match_hint_falls_through (v : V) (x : Var) (h : Hint) (body : Expr) (rest : List Arm) (s : St)
+/-- **match_hint_falls_through.** A typed pattern — named `x: T` or wildcard `_: T` (`x = none`) —
+whose check fails answers "no" instead of raising (a named one has already received the value). -/
+theorem match_hint_falls_through (k : Nat) (v : V) (x : Option Var) (h : Hint) (s : St)
     (hc : check h.name h.opt v = false) :
-    selectArm v (.mk (.bind x (some h)) body :: rest) s = selectArm v rest (s.set x v) := by
-  simp [selectArm, patMatch, hc]
+    patM (k + 1) (.b x (some h)) v s = (.no, s.setOpt x v) := by
+  simp [patM, hc]
 
-theorem match_hint_selects (v : V) (x : Var) (h : Hint) (body : Expr) (rest : List Arm) (s : St)
+theorem match_hint_selects (k : Nat) (v : V) (x : Option Var) (h : Hint) (s : St)
     (hc : check h.name h.opt v = true) :
-    selectArm v (.mk (.bind x (some h)) body :: rest) s = (some body, s.set x v) := by
-  simp [selectArm, patMatch, hc]
+    patM (k + 1) (.b x (some h)) v s = (.yes, s.setOpt x v) := by
+  simp [patM, hc]
 
-theorem match_wild_hint (v : V) (h : Hint) (body : Expr) (rest : List Arm) (s : St) :
-    selectArm v (.mk (.wild (some h)) body :: rest) s =
-      if check h.name h.opt v then (some body, s) else selectArm v rest s := by
-  cases hc : check h.name h.opt v <;> simp [selectArm, patMatch, hc]
+/-- a mismatch anywhere inside an alternative (several subjects, nested patterns) fails that
+alternative only: **the next `or` alternative is tried** … -/
+theorem or_alternative_falls_to_next (k : Nat) (alt : List P) (alts : List (List P)) (vs : List V) (s s1 : St)
+    (h : patsM k alt vs s = (.no, s1)) :
+    altsM k (alt :: alts) vs s = altsM k alts vs s1 := by
+  simp [altsM, h]
 
-/-- no arm matches: the `match` yields null, in both modes, and no assertion has failed -/
-theorem match_without_selection (c : Bool) (F : Funs) (n : Nat) (scrut : Expr) (arms : List Arm) (s s1 s2 : St) (v : V)
-    (hs : eval c F n scrut s = (.ok v, s1)) (hsel : selectArm v arms s1 = (none, s2)) :
-    eval c F (n + 1) (.matchE scrut arms) s = (.ok .null, s2) ∧ s2.fails = s1.fails := by
-  refine ⟨by simp [eval, hs, andThen_ok, bindR, hsel], ?_⟩
-  have := selectArm_fails v arms s1
-  rw [hsel] at this
-  exact this
+/-- … and an alternative that matches selects the arm, whatever its position. -/
+theorem or_alternative_selects (k : Nat) (alt : List P) (alts : List (List P)) (vs : List V) (s s1 : St)
+    (h : patsM k alt vs s = (.yes, s1)) :
+    altsM k (alt :: alts) vs s = (.yes, s1) := by
+  simp [altsM, h]
+
+/-- patterns of one alternative are tried left to right; the first "no" ends the alternative -/
+theorem patterns_left_to_right (k : Nat) (p : P) (ps : List P) (v : V) (vs : List V) (s s1 : St) :
+    (patM k p v s = (.yes, s1) → patsM (k + 1) (p :: ps) (v :: vs) s = patsM k ps vs s1) ∧
+    (patM k p v s = (.no, s1) → patsM (k + 1) (p :: ps) (v :: vs) s = (.no, s1)) := by
+  constructor <;> intro h <;> simp [patsM, h]
+
+/-- the arm whose patterns all fail passes on to the next arm; no arm at all: null -/
+theorem arm_falls_to_next_arm (c : Bool) (F : Funs) (n : Nat) (vs : List V) (alts : List (List P))
+    (g : Option Expr) (body : Expr) (rest : List Arm) (s s1 : St) (h : armM n alts vs s = (.no, s1)) :
+    matchArms c F (n + 1) vs (.mk alts g body :: rest) s = matchArms c F n vs rest s1 := by
+  simp [matchArms, bindR, h]
+
+theorem match_without_selection (c : Bool) (F : Funs) (n : Nat) (vs : List V) (s : St) :
+    matchArms c F (n + 1) vs [] s = (.ok .null, s) := by
+  simp [matchArms]
+
+/-- a selected arm without guard runs its body; with a guard, a false guard passes on to the next
+*arm* (not to the next alternative) -/
+theorem arm_selected (c : Bool) (F : Funs) (n : Nat) (vs : List V) (alts : List (List P))
+    (body : Expr) (rest : List Arm) (s s1 : St) (h : armM n alts vs s = (.yes, s1)) :
+    matchArms c F (n + 1) vs (.mk alts none body :: rest) s = eval c F n body s1 := by
+  simp [matchArms, bindR, h]
+
+theorem arm_guard (c : Bool) (F : Funs) (n : Nat) (vs : List V) (alts : List (List P))
+    (g body : Expr) (rest : List Arm) (s s1 s2 : St) (gv : V) (h : armM n alts vs s = (.yes, s1))
+    (hg : eval c F n g s1 = (.ok gv, s2)) :
+    matchArms c F (n + 1) vs (.mk alts (some g) body :: rest) s =
+      if truthy gv then eval c F n body s2 else matchArms c F n vs rest s2 := by
+  simp [matchArms, bindR, h, hg, andThen_ok]
 
 /-- **catch_hint_falls_through.** A typed `catch x: T` whose check fails passes the error on to the
 next catch block (and does not bind `x`). -/
@@ -266,50 +339,31 @@ theorem catch_final (cv : V) (x : Option Var) (final : Expr) (s : St) :
 
 /-! ## Disabling type checks -/
 
-/-- **patterns_keep_selecting.** In *both* modes (`c` arbitrary) `match` runs the arm chosen by
-`selectArm` and `try` runs the catch block chosen by `selectCatch`; these selection functions have no
-`checks` parameter, so type patterns keep selecting when type checks are disabled. -/
+/-- **patterns_keep_selecting.** In *both* modes (`c` arbitrary) a `match` arm is taken or passed by
+according to `armM` (patterns: `patM`/`patsM`/`altsM`) and `try` runs the catch block chosen by
+`selectCatch`; none of these has a `checks` parameter, so type patterns keep selecting when type
+checks are disabled. -/
 theorem patterns_keep_selecting (c : Bool) (F : Funs) (n : Nat) (s s1 : St) :
-    (∀ scrut arms v body s2, eval c F n scrut s = (.ok v, s1) → selectArm v arms s1 = (some body, s2) →
-      eval c F (n + 1) (.matchE scrut arms) s = eval c F n body s2) ∧
-    (∀ scrut arms v s2, eval c F n scrut s = (.ok v, s1) → selectArm v arms s1 = (none, s2) →
-      eval c F (n + 1) (.matchE scrut arms) s = (.ok .null, s2)) ∧
+    (∀ vs alts g body rest, armM n alts vs s = (.no, s1) →
+      matchArms c F (n + 1) vs (.mk alts g body :: rest) s = matchArms c F n vs rest s1) ∧
+    (∀ vs alts body rest, armM n alts vs s = (.yes, s1) →
+      matchArms c F (n + 1) vs (.mk alts none body :: rest) s = eval c F n body s1) ∧
     (∀ body typed x final e, eval c F n body s = (.err e, s1) →
       eval c F (n + 1) (.tryC body typed x final) s =
         eval c F n (selectCatch (catchVal e) typed x final s1).1 (selectCatch (catchVal e) typed x final s1).2) ∧
     (∀ body typed x final r, eval c F n body s = (r, s1) → (∀ e, r ≠ .err e) →
       eval c F (n + 1) (.tryC body typed x final) s = (r, s1)) := by
   refine ⟨?_, ?_, ?_, ?_⟩
-  · intro scrut arms v body s2 hs hsel
-    simp [eval, hs, andThen_ok, bindR, hsel]
-  · intro scrut arms v s2 hs hsel
-    simp [eval, hs, andThen_ok, bindR, hsel]
+  · intro vs alts g body rest h
+    exact arm_falls_to_next_arm c F n vs alts g body rest s s1 h
+  · intro vs alts body rest h
+    exact arm_selected c F n vs alts body rest s s1 h
   · intro body typed x final e hb
     simp [eval, hb, bindR]
   · intro body typed x final r hb hr
     cases r with
     | err e => exact absurd rfl (hr e)
     | _ => simp [eval, hb, bindR]
-
-/-- With the same scrutinee value and state, both modes select the same arm. -/
-theorem match_selection_independent_of_checks (F : Funs) (n : Nat) (scrut : Expr) (arms : List Arm) (s s1 : St) (v : V)
-    (ht : eval true F n scrut s = (.ok v, s1)) (hf : eval false F n scrut s = (.ok v, s1)) :
-    ∃ sel s2, selectArm v arms s1 = (sel, s2) ∧
-      (∀ b, sel = some b →
-        eval true F (n + 1) (.matchE scrut arms) s = eval true F n b s2 ∧
-        eval false F (n + 1) (.matchE scrut arms) s = eval false F n b s2) ∧
-      (sel = none →
-        eval true F (n + 1) (.matchE scrut arms) s = (.ok .null, s2) ∧
-        eval false F (n + 1) (.matchE scrut arms) s = (.ok .null, s2)) := by
-  refine ⟨(selectArm v arms s1).1, (selectArm v arms s1).2, rfl, ?_, ?_⟩
-  · intro b hb
-    have hsel : selectArm v arms s1 = (some b, (selectArm v arms s1).2) := by rw [← hb]
-    exact ⟨(patterns_keep_selecting true F n s s1).1 scrut arms v b _ ht hsel,
-           (patterns_keep_selecting false F n s s1).1 scrut arms v b _ hf hsel⟩
-  · intro hb
-    have hsel : selectArm v arms s1 = (none, (selectArm v arms s1).2) := by rw [← hb]
-    exact ⟨(patterns_keep_selecting true F n s s1).2.1 scrut arms v _ ht hsel,
-           (patterns_keep_selecting false F n s s1).2.1 scrut arms v _ hf hsel⟩
 
 /-- **erasure.** For every function table, fuel, expression and start state: if the run with type
 checks enabled ends in `(r, s')` and no assertion failed on the way (`fails` did not move), then the
@@ -393,16 +447,23 @@ theorem erasure_run_ok (p : Prog) (hF : noTryF p.funs = true) (he : noTryE p.mai
 
 /-! ## Non-vacuity: a program with hints at several positions whose checks all pass -/
 
-/-- `f0 = |v0: Number| -> String (koto.type v0)`; `let v0: Number = 3`; a `match` on `f0(v0)` with a
-typed arm that falls through (`v1: Number`) and one that selects (`v1: String`); a typed `for`. -/
+/-- `f0 = |v0: Number, (_: Any, v1: String)| -> String (koto.type v0)`;
+`let v0: Number, _: String, v3: Number = [3, 'x', 4]`; a typed `for`; a `match` on `f0(v0, (1, 'a'))`
+whose first arm falls through and whose second arm is selected by its *second* `or` alternative, a
+hinted wildcard, and passes its guard. -/
 def demo : Prog :=
-  { funs := [⟨[(0, some ⟨kindName .number, false⟩)], some ⟨kindName .str, false⟩, .plain (.typeOf (.var 0))⟩],
+  { funs := [⟨[.b (some 0) (some ⟨kindName .number, false⟩),
+               .tup [.b none (some ⟨name_always, false⟩), .b (some 1) (some ⟨kindName .str, false⟩)]],
+              some ⟨kindName .str, false⟩, .plain (.typeOf (.var 0))⟩],
     main :=
-      .seq (.letH (some 0) (some ⟨kindName .number, false⟩) (.lit (.int 3)))
+      .seq (.letUnpack [(some 0, some ⟨kindName .number, false⟩), (none, some ⟨kindName .str, false⟩),
+                        (some 3, some ⟨kindName .number, false⟩)]
+              (.lit (.list [.int 3, .str [120], .int 4])))
         (.seq (.forIn [(some 2, some ⟨name_always, true⟩)] (.lit (.list [.int 1, .null])) (.emit (.var 2)))
-          (.matchE (.call (.lit (.fn 0)) [.var 0])
-            [.mk (.bind 1 (some ⟨kindName .number, false⟩)) (.lit (.int 0)),
-             .mk (.bind 1 (some ⟨kindName .str, false⟩)) (.var 1)])) }
+          (.matchE [.call (.lit (.fn 0)) [.var 0, .lit (.tuple [.int 1, .str [97]])]]
+            [.mk [[.b (some 1) (some ⟨kindName .number, false⟩)]] none (.lit (.int 0)),
+             .mk [[.b none (some ⟨kindName .bool, false⟩)], [.b none (some ⟨kindName .str, false⟩)]]
+                 (some (.lt (.var 0) (.var 3))) (.var 1)])) }
 
 example : (run true demo 20).1 = .ok (.str (kindName .number)) ∧ (run true demo 20).2.fails = 0 ∧
     (run true demo 20).2.trace = [.null, .int 1] := ⟨rfl, rfl, rfl⟩
